@@ -44,6 +44,9 @@ struct SdoDict {
         addDom(0x2104, 0, (uint32_t)p.c("dom4", 8), CO_OBJ______W, 5);
         addDom(0x2105, 0, (uint32_t)p.c("dom5", 3), CO_OBJ_____RW, 6);
         addStr(0x2200, 0, (uint32_t)p.c("str0", 11), 7); addStr(0x2201, 0, (uint32_t)p.c("str1", 300), 8);
+        // 2301h..2304h: a type that rejects every written value with a CO_ERR the server has to translate (range, mapping type, mapping length, incompatibility);
+        // in the dictionary only (not in 'objs'): addressed by the C04 request generator, never by whole sessions
+        { static const CO_ERR rej[] = {CO_ERR_OBJ_RANGE, CO_ERR_OBJ_MAP_TYPE, CO_ERR_OBJ_MAP_LEN, CO_ERR_OBJ_INCOMPATIBLE}; for (int k = 0; k < 4; k++) { ObjSpec o; o.idx = (uint16_t)(0x2301 + k); o.sub = 0; o.flags = CO_OBJ_____RW; o.type = T_USER; o.val = (uint32_t)rej[k]; specs.push_back(o); } }
         { ObjSpec o; o.idx = 0x2300; o.sub = 0; o.flags = CO_OBJ_____RW; o.type = T_USER; o.val = 0x06060000u + (uint32_t)p.c("usercode", 0x10); specs.push_back(o); objs.push_back({0x2300, 0, 3, 4, true, true, false}); }
     }
     const SdoObj *find(uint16_t idx, uint8_t sub) const { for (auto &o : objs) if (o.idx == idx && o.sub == sub) return &o; return nullptr; }
